@@ -37,15 +37,25 @@ ASSUMPTIONS = [
     "methods and injected code only, so anomalies in those runs are counted (unjudged_*), not judged",
     "request origin/arrival tick and aborted cancellations are observed by recording wrappers on "
     "CommandRequest.from_user, CommandManager.schedule and Tracking.mark_cancelled (classifiers only)",
+    "'declared as overlapping' = both names occur in at least one list given to UodBuilder.with_command_overlap; the "
+    "relation is not transitive ([A, X] and [B, X] do not make A and B overlap) and does not depend on the order of the "
+    "lists; multi-list UODs are the standard rig UOD with the lists declared through with_command_overlap",
+    "the known-finding class 'conflicting requests in one tick' is never applied to an exclusivity violation between an "
+    "older instance and a newer one whose request was the only UOD request (and no Stop/Restart) dequeued in its tick "
+    "when neither of the two is itself a request of a same-tick burst",
 ]
 REQUIRED = {"instances_checked": 300, "exec_events": 1000, "conflicts_older_cancelled": 20, "cancel_requests": 5,
             "stops_with_live_instance": 5, "failed_instances": 5, "quiescence_checks": 100,
             # UODs with several overlap lists sharing commands (generated + directed stratum)
-            "multi_overlap_runs": 300, "directed_multi_overlap_runs": 100, "multi_overlap_instances_checked": 800,
-            "multi_overlap_conflicts_with_command_in_several_lists": 200,
-            "multi_overlap_conflicts_via_later_declared_list": 60,
-            "multi_overlap_conflicts_older_cancelled": 150,
-            "multi_overlap_single_request_conflict_ticks": 150}
+            "multi_overlap_runs": 600, "directed_multi_overlap_runs": 300, "multi_overlap_instances_checked": 2000,
+            # a command that is a member of >= 2 overlap lists was requested while an instance of a different command
+            # sharing one of those lists was alive / sharing only a list declared after the first one naming the requested
+            # command / and that older instance was finalized in the tick of the request
+            "multi_overlap_conflicts_with_command_in_several_lists": 300,
+            "multi_overlap_conflicts_via_later_declared_list": 120,
+            "multi_overlap_conflicts_older_cancelled": 300,
+            # ticks with exactly one new UOD request that conflicts with a live instance of another command
+            "multi_overlap_single_request_conflict_ticks": 400}
 
 OVERLAP = (frozenset(("Long", "Long2")),)
 INJECT = ("Long\n", "Long2\n", "Other\n", "Fail\n", "Short\n", "Drive1\n", "Long\nLong2\n", "Mark: inj\nLong\n",
@@ -279,8 +289,9 @@ def check_case(case, res: Result):
     conflict_seen = 0
     failed = 0
 
-    def V(mech, msg, involved):
-        raw.append((mech, msg, tuple(involved)))
+    def V(mech, msg, involved, tick=None):
+        # tick is given for the exclusivity rules (a pair of instances at one tick), None for per-instance rules
+        raw.append((mech, msg, tuple(involved), tick))
 
     # (1) automaton per instance
     for iid in order:
@@ -327,7 +338,7 @@ def check_case(case, res: Result):
                     V("C11.older_conflicting_instance_not_cancelled",
                       f"instance {iid[:8]} of {nm} executes at tick {tick} while instance {o[:8]} of {onm} "
                       f"(init tick {per[o][0][0]}) is still alive - the older one was not cancelled and finalized first",
-                      [iid, o])
+                      [iid, o], tick)
             lst = exec_in_tick.setdefault(tick, [])
             if iid not in lst:
                 lst.append(iid)
@@ -342,7 +353,7 @@ def check_case(case, res: Result):
                     mech = "C11.two_requests_in_one_tick_both_execute" if both_new else \
                         "C11.older_instance_executes_in_tick_of_replacement"
                     V(mech, f"tick {tick}: instances {a[:8]} ({name_of[a]}) and {b[:8]} ({name_of[b]}) both "
-                      f"have an exec call in this tick", [a, b])
+                      f"have an exec call in this tick", [a, b], tick)
     # older instance cancelled by a newer conflicting request: fin of O in the tick of N's init, O alive before
     older_cancelled = 0
     for iid in order:
@@ -437,12 +448,35 @@ def check_case(case, res: Result):
     leaked = [(name_of[i], st) for st in stop_ticks for i in stop_race
               if i in per and per[i][0][0] <= st and (fin_tick(i) is None or fin_tick(i) > st)]
 
+    # ids of the requests that form the bursts (as opposed to conflicting instances merely alive at a burst tick)
+    uod_reqs_at: dict[int, list] = {}
+    for q in reqs:
+        uod_reqs_at.setdefault(q[0], []).append(q)
+    burst_req_ids = {q[2] for t in burst for q in uod_reqs_at.get(t, ())
+                     if any(o is not q and conflicts(o[1], q[1]) for o in uod_reqs_at[t])}
+    ctl_ticks = {q[0] for q in all_reqs if q[1] in ("Stop", "Restart")}
+    req_ticks: dict[str, list] = {}
+    for q in reqs:
+        req_ticks.setdefault(q[2], []).append(q[0])
+
+    def lone_request_pair(involved, vtick):
+        """Exclusivity violation between a newer instance N and an older instance O where N's request was the only UOD
+        request dequeued in its tick (no Stop/Restart in that tick either), was scheduled once, and neither N nor O is a
+        request of a same-tick burst: whatever went wrong between the two, it is not 'conflicting requests in one tick'."""
+        if vtick is None or len(involved) != 2 or any(i not in per for i in involved):
+            return False
+        n, o = sorted(involved, key=lambda i: order.index(i), reverse=True)
+        tn = req_ticks.get(n, [])
+        if len(tn) != 1 or len(uod_reqs_at.get(tn[0], ())) != 1 or tn[0] in ctl_ticks:
+            return False
+        return n not in burst_req_ids and o not in burst_req_ids and per[o][0][0] < tn[0]
+
     def in_burst(involved):
         return any(i in ids for ids in burst.values() for i in involved)
 
     seen = set()
     unjudged = bool(user_iids & set(order))
-    for mech, msg, involved in raw:
+    for mech, msg, involved, vtick in raw:
         if unjudged:
             # runs containing UOD commands issued through execute_control_command_from_user are outside the
             # statement's quantifier (methods and injected code); anomalies there are counted, not judged
@@ -453,7 +487,7 @@ def check_case(case, res: Result):
         if any(i in stop_race for i in involved):
             # (d) a UOD request queued before a Stop/Restart of the same tick survives the Stop's cancel phase
             mech = "C11.request_queued_before_stop_in_same_tick"
-        elif in_burst(involved):
+        elif in_burst(involved) and not lone_request_pair(involved, vtick):
             mech = "C11.conflicting_requests_in_one_tick"
         elif any(i in dup_req for i in involved):
             # (c) two CommandRequests were scheduled under one instance id: visit_UodCommandNode takes
